@@ -43,3 +43,6 @@ mod errors;
 mod workspace;
 
 pub use workspace::Workspace;
+
+#[cfg(dmntk_verif)]
+pub use workspace::VerifSnapshot;
